@@ -1,5 +1,5 @@
 (* Corr/C18.v — correspondence glue: runs the Lockout model on a timed script observed on the real code.
-   value = [ [cond_unban; keep_stronger; late_goroutines] ; [maxf; window; band; perm; rate; burst; ttl; tps] ;
+   value = [ [cond_unban; keep_stronger; late_goroutines; anon_resets] ; [maxf; window; band; perm; rate; burst; ttl; tps] ;
              [ [t; opcode; ip; arg] ... ] ; [observed result ...] ; [mask ...] ]
    times/durations in the same unit (the harness uses nanoseconds, tps = 10^9).
    opcode: 0 fail 1 succ 2 query 3 ban(arg=dur) 4 unban 5 cleanup 6 bladd(arg=dur) 7 blrm 8 wladd 9 wlrm
@@ -12,7 +12,7 @@ Open Scope Z_scope.
 Definition vz (v : tval) : Z := Z.of_N (vn v).
 
 Definition dec_variant (v : tval) : variant :=
-  {| cond_unban := vbool (vnth 0 v); keep_stronger := vbool (vnth 1 v) |}.
+  {| cond_unban := vbool (vnth 0 v); keep_stronger := vbool (vnth 1 v); anon_resets := vbool (vnth 3 v) |}.
 Definition dec_cfg (v : tval) : cfg :=
   {| maxf := vz (vnth 0 v); window := vz (vnth 1 v); band := vz (vnth 2 v); perm := vz (vnth 3 v);
      rate := vz (vnth 4 v); burst := vz (vnth 5 v); ttl := vz (vnth 6 v); tps := vz (vnth 7 v) |}.
